@@ -275,6 +275,37 @@ func nickRun(e *Env) {
 			where += " (client NICK confirmed)"
 		case 1: // client asks, refused 1-2 times, then confirmed
 			z := fmt.Sprintf("tk%dq", uniq)
+			// the refused nick may resemble the current one: a proper prefix of it
+			// (a bot on foo_ trying to regain foo), an extension, another letter case
+			switch x.arg % 5 {
+			case 1:
+				if len(serverNick) > 1 {
+					z = serverNick[:len(serverNick)-1]
+				}
+			case 2:
+				z = serverNick + "_x"
+			case 3:
+				if up := strings.ToUpper(serverNick); up != serverNick {
+					z = up
+				}
+			}
+			// a conformant server never confirms a nick that is in use: the whole
+			// chain the generator can produce from z must stay clear of the others
+			chainOK := func(z string) bool {
+				n := z
+				for i := 0; i < 4; i++ {
+					for _, o := range others {
+						if o == n {
+							return false
+						}
+					}
+					n = genRef(n)
+				}
+				return z != serverNick
+			}
+			if !chainOK(z) {
+				z = fmt.Sprintf("tk%dq", uniq)
+			}
 			c.Nick(z)
 			ln, ok := next(10 * time.Minute)
 			if !ok || ln != "NICK "+z {
@@ -283,6 +314,9 @@ func nickRun(e *Env) {
 			}
 			cur := z
 			for k := 1 + x.arg%2; k > 0; k-- {
+				if cur == serverNick {
+					break // the generator led back to the client's own nick: a no-op for the server
+				}
 				e.S.Count("fault.nick-refused-after-welcome")
 				l.SendLine(":irc.sim 433 " + serverNick + " " + cur + " :Nickname is already in use.")
 				p, ok := expectNick(cur, where+" (client NICK refused)")
@@ -481,7 +515,9 @@ func regRun(e *Env) {
 	nConns := g.Range(1, 3)
 	type tokT struct{ send, want string }
 	toks := []tokT{{":tok", "tok"}, {":with space", "with space"}, {"plain", "plain"}, {":", ""}, {"::colon", ":colon"}, {":a :b", "a :b"},
-		{":" + strings.Repeat("L", 480), strings.Repeat("L", 480)}, {":12345", "12345"}}
+		{":" + strings.Repeat("L", 480), strings.Repeat("L", 480)}, {":12345", "12345"},
+		{":" + strings.Repeat("M", 507), strings.Repeat("M", 507)}, {":" + strings.Repeat("N", 600) + " end", strings.Repeat("N", 600) + " end"},
+		{":" + strings.Repeat("O", 5000), strings.Repeat("O", 5000)}}
 	slowServer := sslMode == 0 && g.Pct(40)
 	e.LinkPlan = func(l *simnet.Link) {
 		l.ChunkMode = g.Intn(4)
@@ -617,6 +653,7 @@ func regRun(e *Env) {
 		// "interleaved with any other traffic": the client is sending lines of
 		// its own while the PINGs arrive
 		nChat := 0
+		floodBudget := time.Duration(0)
 		chatDone := true
 		if g.S.Choose(2) == 0 {
 			nChat = 1 + g.S.Choose(30)
@@ -636,6 +673,7 @@ func regRun(e *Env) {
 			t := toks[g.S.Choose(len(toks))]
 			p.send("PING " + t.send)
 			wantPongs = append(wantPongs, "PONG :"+t.want)
+			floodBudget += 4*time.Second + time.Duration(len(t.want))*time.Second/100 // its charge under flood protection
 			if g.S.Choose(2) == 0 {
 				p.send(":op!o@h PRIVMSG " + curNick + " :noise")
 			}
@@ -646,7 +684,7 @@ func regRun(e *Env) {
 		// read slowly until everything expected has arrived (7 s per line covers
 		// every flood delay)
 		wantLines := np + nChat
-		deadlineAt := e.S.Now() + time.Duration(wantLines+4)*8*time.Second + 30*time.Second
+		deadlineAt := e.S.Now() + time.Duration(nChat+4)*8*time.Second + floodBudget + 30*time.Second
 		count := func() int {
 			n := 0
 			for _, ln := range got[before:] {
@@ -690,7 +728,17 @@ func regRun(e *Env) {
 			e.Violation("garbage-on-the-wire", "connection %d: %d of the client's own %d lines arrived while it was answering PINGs", conn, len(chats), nChat)
 			return
 		}
-		// own PINGs over an idle stretch
+		// own PINGs over an idle stretch.  Lines delayed by flood protection
+		// (queued pings among them) must have drained first: wait until the
+		// client has been silent for 7 s (longer than any hold of a short line,
+		// shorter than any PingFreq used here)
+		for quietSince, n0 := e.S.Now(), len(got); e.S.Now()-quietSince < 7*time.Second; {
+			simrt.Sleep(500 * time.Millisecond)
+			recvAll(time.Millisecond)
+			if len(got) != n0 {
+				n0, quietSince = len(got), e.S.Now()
+			}
+		}
 		before = len(got)
 		D := []time.Duration{time.Minute, 10 * time.Minute, 37 * time.Minute}[g.S.Choose(3)]
 		t0 := e.S.Now()
@@ -924,7 +972,32 @@ func capRun(e *Env) {
 							fail("end-after-nak", "after a NAK want CAP END, got %q", ln)
 							return
 						}
+						if saslKind != 0 && g.S.Choose(2) == 0 {
+							// a server asking for SASL data although sasl was never
+							// acknowledged must get nothing
+							e.S.Count("fault.unprompted-authenticate-after-nak")
+							l.SendLine("AUTHENTICATE +")
+							simrt.Settle(10 * time.Second)
+							e.Check()
+							if l.HasLine() {
+								extra, _ := nextLine()
+								fail("sasl-unacknowledged", "sasl was refused (NAK), yet the client answered the server's AUTHENTICATE + with %q", extra)
+								return
+							}
+						}
 						continue
+					}
+					if hasSasl && saslKind != 0 && g.S.Choose(3) == 0 {
+						// ... and likewise before the acknowledgement has been sent
+						e.S.Count("fault.unprompted-authenticate-before-ack")
+						l.SendLine("AUTHENTICATE +")
+						simrt.Settle(10 * time.Second)
+						e.Check()
+						if l.HasLine() {
+							extra, _ := nextLine()
+							fail("sasl-unacknowledged", "the client sent %q in answer to AUTHENTICATE + before sasl was acknowledged", extra)
+							return
+						}
 					}
 					l.SendLine(":irc.sim CAP me ACK :" + strings.Join(caps, " "))
 					for _, cp := range caps {
